@@ -73,6 +73,75 @@ def guard_conditions(fn: ast.AST, node: ast.AST) -> list[ast.AST]:
     return out
 
 
+def conditions_at(fn: ast.AST, node: ast.AST, raising_guards: bool = True) -> list[ast.AST]:
+    """Path conditions known to hold when `node` executes: the effective conditions of the enclosing `if`s, plus the
+    complement of every guard clause (`if T: ...raise/return/break/continue`) that precedes it in an enclosing block.
+    (The program is in conditional normal form, so early exits are exactly else-less `if`s ending in a terminator.)"""
+    import copy
+
+    from ..loader import _neg, _terminates
+
+    parents = parents_of(fn)
+    out = list(guard_conditions(fn, node))
+    cur = node
+    while cur is not fn and cur is not None:
+        par = parents.get(id(cur))
+        if par is None:
+            break
+        for field in ("body", "orelse", "finalbody"):
+            blk = getattr(par, field, None)
+            if isinstance(blk, list) and any(cur is s for s in blk):
+                for s in blk:
+                    if s is cur:
+                        break
+                    if isinstance(s, ast.If) and not s.orelse and _terminates(s.body):
+                        if raising_guards or not isinstance(s.body[-1], ast.Raise):
+                            out.append(_neg(copy.deepcopy(s.test)))
+        cur = par
+    # conjunctions contribute each conjunct
+    flat = []
+    for c in out:
+        stack = [c]
+        while stack:
+            x = stack.pop()
+            if isinstance(x, ast.BoolOp) and isinstance(x.op, ast.And):
+                stack.extend(x.values)
+            else:
+                flat.append(x)
+    return flat
+
+
+def implies_positive(cond: ast.AST, names: set[str]) -> bool:
+    """cond => X > 0 (for an integer X >= 0: X != 0, X > 0, X >= 1, truthiness of X), X one of the expressions in `names`;
+    `getattr(self, "x", 0)` counts as `self.x`."""
+    def is_x(e):
+        if isinstance(e, ast.Call) and isinstance(e.func, ast.Name) and e.func.id == "getattr" and len(e.args) == 3 \
+                and isinstance(e.args[1], ast.Constant) and isinstance(e.args[2], ast.Constant) and e.args[2].value in (0, None, False):
+            return f"{ast.unparse(e.args[0])}.{e.args[1].value}" in names
+        return ast.unparse(e) in names
+
+    def const(e, v):
+        return isinstance(e, ast.Constant) and e.value == v and not isinstance(e.value, bool)
+
+    if is_x(cond):
+        return True
+    if isinstance(cond, ast.Compare) and len(cond.ops) == 1:
+        l, r, op = cond.left, cond.comparators[0], cond.ops[0]
+        if is_x(l):
+            return (isinstance(op, (ast.Gt, ast.NotEq)) and const(r, 0)) or (isinstance(op, ast.GtE) and const(r, 1))
+        if is_x(r):
+            return (isinstance(op, (ast.Lt, ast.NotEq)) and const(l, 0)) or (isinstance(op, ast.LtE) and const(l, 1))
+    if isinstance(cond, ast.UnaryOp) and isinstance(cond.op, ast.Not):
+        c = cond.operand
+        if isinstance(c, ast.Compare) and len(c.ops) == 1:
+            l, r, op = c.left, c.comparators[0], c.ops[0]
+            if is_x(l) and const(r, 0) and isinstance(op, (ast.Eq, ast.LtE)):
+                return True
+            if is_x(r) and const(l, 0) and isinstance(op, (ast.Eq, ast.GtE)):
+                return True
+    return False
+
+
 def calls_in(node: ast.AST):
     return [n for n in ast.walk(node) if isinstance(n, ast.Call)]
 
